@@ -1,0 +1,23 @@
+//go:build verif
+
+package stringutil
+
+import "strings"
+
+var _ = strings.ToLower
+
+//@ func SliceContains
+//@   ensures ret == exists i int :: 0 <= i && i < len(slice) && slice[i] == s
+//@   loop 1: invariant 0 <= ridx && ridx <= len(slice)
+//@   loop 1: invariant forall k int :: 0 <= k && k < ridx ==> slice[k] != s
+//@   loop 1: decreases len(slice) - ridx
+//@   serves C05
+
+//@ func SliceToLower
+//@   modifies elems(slice)
+//@   ensures forall k int :: 0 <= k && k < len(slice) ==> slice[k] == strings.ToLower(old(slice[k]))
+//@   loop 1: invariant 0 <= ridx && ridx <= len(slice)
+//@   loop 1: invariant forall k int :: 0 <= k && k < ridx ==> slice[k] == strings.ToLower(old(slice[k]))
+//@   loop 1: invariant forall k int :: ridx <= k && k < len(slice) ==> slice[k] == old(slice[k])
+//@   loop 1: decreases len(slice) - ridx
+//@   serves C05
